@@ -1,5 +1,5 @@
 (** C19 — what the generated facts (Gen/C19Facts.v) are stated in terms of. *)
-From Coq Require Import List Bool Arith.
+From Coq Require Import List Bool Arith String.
 Import ListNotations.
 
 (** The expression a call site of [updateBlockBloom] passes as base log index. *)
@@ -33,3 +33,46 @@ Definition sites_ok (S : sites) : bool :=
   base_good (s_eth S) && base_good (s_deploy S) && base_good (s_conv_coin S) &&
   base_good (s_conv_erc20 S) && addlog_index_from_cfg S && cfg_reads_transient S &&
   txindex_incremented S && logsize_set_formula S && (n_call_sites S =? 4).
+
+(** * Block wiring: the order of the module EndBlockers (runtime module config of app/app_config.go,
+    re-extracted on every run) and what the EndBlocker of each module can do to the EVM's per-block state. *)
+Inductive eclass :=
+| Inert     (* its EndBlocker executes no sdk.Msg and makes no EVM call: it cannot emit an EVM log *)
+| MayExec   (* its EndBlocker dispatches messages through the msg service router (x/gov: passed proposals),
+               or the module is not known to this table: it may emit EVM logs *)
+| Publish.  (* x/evm: emits EventBlockBloom from the transient bloom *)
+
+(** Modules of the current tree whose EndBlocker is inert (absent, empty, or: x/staking validator-set update,
+    x/crisis invariants, x/oracle vote tally, x/feegrant / x/group pruning — x/group's EndBlocker only tallies and
+    prunes, group proposals are executed by MsgExec inside DeliverTx).  Names are the modules' [ModuleName]s. *)
+Definition inert_modules : list string :=
+  [ "upgrade"; "capability"; "auth"; "bank"; "distribution"; "staking"; "slashing"; "crisis"; "genutil";
+    "evidence"; "authz"; "feegrant"; "params"; "consensus"; "vesting"; "group"; "mint"; "nft";
+    "epochs"; "oracle"; "inflation"; "sudo"; "devgas"; "tokenfactory"; "genmsg";
+    "transfer"; "ibc"; "feeibc"; "interchainaccounts"; "08-wasm"; "wasm" ]%string.
+
+Definition classify (m : string) : eclass :=
+  if String.eqb m "evm" then Publish
+  else if existsb (String.eqb m) inert_modules then Inert
+  else MayExec.
+
+Record wiring := {
+  end_order   : list string;   (* EndBlockers of the runtime module config, in order *)
+  begin_order : list string;   (* BeginBlockers, in order — informative: every BeginBlocker runs before every tx and every
+                                  EndBlocker on the freshly reset transient store, so its logs are always in the bloom *)
+  evm_beginblock_noop : bool   (* informative: Keeper.BeginBlock has an empty body *)
+}.
+
+Definition is_inert (m : string) : bool := match classify m with Inert => true | _ => false end.
+
+(** x/evm publishes exactly once, and every EndBlocker that runs after it is inert. *)
+Fixpoint order_ok (order : list string) : bool :=
+  match order with
+  | [] => false
+  | m :: r => match classify m with
+              | Publish => forallb is_inert r
+              | _ => order_ok r
+              end
+  end.
+
+Definition wiring_ok (O : wiring) : bool := order_ok (end_order O).
